@@ -40,4 +40,5 @@ registry! {
     "C17" => c17,
     "C18" => c18,
     "C19" => c19,
+    "C20" => c20,
 }
